@@ -3,13 +3,13 @@
 # Meant for `vp run --timeout 8h -- sh tools/run_seeded_all.sh` (results are not evidence).
 ./setup.sh > setup.log 2>&1 || { echo "setup failed"; tail -20 setup.log; exit 2; }
 mkdir -p seeded_logs
-ls seeded | xargs -P 4 -I{} sh -c 'python3 tools/run_seeded.py seeded/{} --base HEAD > seeded_logs/{}.json 2>&1; python3 - {} <<PY
+ls seeded | xargs -P 4 -I{} sh -c 'python3 tools/run_seeded.py seeded/{} --base HEAD --seeds ${SEEDS:-0} > seeded_logs/{}.json 2>&1; python3 - {} <<PY
 import json,sys
 s=sys.argv[1]
 t=open("seeded_logs/%s.json"%s).read(); i=t.find("{")
 if i<0: print(s,"NO-RESULT",t[-200:].replace("\n"," "))
 else:
     d=json.loads(t[i:]); own=s.split("-")[0]
-    print(s, "confirmed" if d["confirmed"] else "UNCONFIRMED(clean=%s changed=%s tests=%s)"%(d.get("demo_clean_rc"),d.get("demo_changed_rc"),d.get("tests")), "own-check:%s"%d["detected"].get(own), d["detected"])
+    print(s, "confirmed" if d["confirmed"] else "UNCONFIRMED(clean=%s changed=%s tests=%s)"%(d.get("demo_clean_rc"),d.get("demo_changed_rc"),d.get("tests")), "own-check:%s"%d["detected"].get(own), "every-seed:%s"%d.get("detected_at_every_seed",{}).get(own), d["detected"])
 PY'
 echo; echo "== not detected by own check:"; grep -h "own-check:False\|NO-RESULT\|UNCONFIRMED" seeded_logs/*.summary 2>/dev/null
